@@ -3,6 +3,7 @@
 Nothing here executes code from /repo; gx only parses it (clang front end).
 """
 import hashlib
+import tempfile
 import json
 import os
 import shutil
@@ -385,9 +386,10 @@ class DB:
         self.extract_s = 0.0
         self.cached = False
 
-    def add_unit(self, path):
-        with open(path) as fh:
-            j = json.load(fh)
+    def add_unit(self, path, j=None):
+        if j is None:
+            with open(path) as fh:
+                j = json.load(fh)
         self.units.append(j['unit'])
         seen = {f.key for f in self.functions}
         for fj in j['functions']:
@@ -483,39 +485,102 @@ def load_variant(repo, units, variant_flags, min_units=1):
     return db
 
 
+ROOT_TOKEN = '@GDSTK_TREE_ROOT@'
+
+
+def unit_key(unit, repo, headers_digest, fl):
+    h = hashlib.sha256()
+    h.update(relpath(unit).encode())
+    with open(unit, 'rb') as fh:
+        h.update(hashlib.sha256(fh.read()).digest())
+    h.update(headers_digest)
+    h.update(' '.join(f.replace(repo, ROOT_TOKEN) for f in fl).encode())
+    return h.hexdigest()[:32]
+
+
+def headers_digest(repo, extra_roots=()):
+    """Digest of every header a unit can include from the analysed tree (relative name + content) and of the extractor."""
+    h = hashlib.sha256()
+    files = header_files(repo)
+    for sub in ('external/clipper',):
+        d = os.path.join(repo, sub)
+        if os.path.isdir(d):
+            files += sorted(os.path.join(d, f) for f in os.listdir(d) if f.endswith(('.hpp', '.h')))
+    for r in extra_roots:
+        files += sorted(os.path.join(r, f) for f in os.listdir(r) if f.endswith(('.hpp', '.h')))
+    for f in files:
+        h.update(f.replace(repo, ROOT_TOKEN).encode())
+        with open(f, 'rb') as fh:
+            h.update(hashlib.sha256(fh.read()).digest())
+    with open(GX, 'rb') as fh:
+        h.update(hashlib.sha256(fh.read()).digest())
+    return h.digest()
+
+
+def _evict_units(udir, cap=360, min_age_s=1800):
+    try:
+        ents = [os.path.join(udir, f) for f in os.listdir(udir)]
+        if len(ents) <= cap:
+            return
+        now = time.time()
+        ents.sort(key=os.path.getmtime)
+        for f in ents[:len(ents) - cap]:
+            if now - os.path.getmtime(f) > min_age_s:
+                try:
+                    os.remove(f) if os.path.isfile(f) else shutil.rmtree(f, ignore_errors=True)
+                except OSError:
+                    pass
+    except OSError:
+        pass
+
+
 def load(repo=None, extra_units=(), extra_roots=(), extra_flags=()):
-    """Extract (or reuse content-addressed) facts for all of repo/src/*.cpp (+ extra units)."""
-    repo = repo or REPO
+    """Extract (or reuse content-addressed) facts for all of repo/src/*.cpp (+ extra units). The cache is per
+    translation unit: the key covers the unit's bytes, every header of the tree, the flags and the extractor, with the
+    tree root abstracted, so a scratch copy that differs in one .cpp re-extracts one unit. Nothing is trusted from
+    the cache that the current sources do not hash to."""
+    repo = os.path.abspath(repo or REPO)
     t0 = time.time()
     if not os.path.exists(GX):
         raise AnalysisBroken('extractor not built: run setup (make -C /verif)')
     units = source_units(repo) + [os.path.join(VERIF, 'inst', 'templates.cpp')] + list(extra_units)
     if len(units) < 18:
         raise AnalysisBroken('expected >= 17 translation units under %s/src, found %d' % (repo, len(units)))
-    key = tree_key(units + header_files(repo))
-    out = os.path.join(FACTS, key)
+    udir = os.path.join(FACTS, 'u')
+    os.makedirs(udir, exist_ok=True)
+    fl = flags(repo) + list(extra_flags)
+    hd = headers_digest(repo, extra_roots)
+    keys = {u: unit_key(u, repo, hd, fl) for u in units}
+    missing = [u for u in units if not os.path.exists(os.path.join(udir, keys[u] + '.json'))]
     db = DB()
-    marker = os.path.join(out, '.complete')
-    if not os.path.exists(marker):
-        if os.path.isdir(out):
-            shutil.rmtree(out)
-        # keep the cache small: drop older entries
-        if os.path.isdir(FACTS):
-            olds = sorted((os.path.join(FACTS, d) for d in os.listdir(FACTS)), key=os.path.getmtime)
-            for d in olds[:-6]:
-                shutil.rmtree(d, ignore_errors=True)
+    db.cached = not missing
+    if missing:
+        _evict_units(udir)
+        _evict_units(FACTS, cap=40)
         roots = [os.path.join(repo, 'src'), os.path.join(repo, 'include')] + list(extra_roots)
-        tmp = out + '.tmp%d' % os.getpid()
-        run_gx(units, roots, tmp, flags(repo) + list(extra_flags))
-        open(os.path.join(tmp, '.complete'), 'w').write('ok')
+        tmp = tempfile.mkdtemp(prefix='x%d.' % os.getpid(), dir=FACTS)
         try:
-            os.rename(tmp, out)
-        except OSError:
+            run_gx(missing, roots, tmp, fl)
+            for u in missing:
+                src = os.path.join(tmp, os.path.basename(u) + '.json')
+                with open(src) as fh:
+                    text = fh.read()
+                text = text.replace(repo + '/', ROOT_TOKEN + '/')
+                part = os.path.join(tmp, keys[u] + '.part')
+                with open(part, 'w') as fh:
+                    fh.write(text)
+                os.replace(part, os.path.join(udir, keys[u] + '.json'))
+        finally:
             shutil.rmtree(tmp, ignore_errors=True)
-    else:
-        db.cached = True
     for u in units:
-        db.add_unit(os.path.join(out, os.path.basename(u) + '.json'))
+        path = os.path.join(udir, keys[u] + '.json')
+        with open(path) as fh:
+            text = fh.read()
+        try:
+            os.utime(path)
+        except OSError:
+            pass
+        db.add_unit(None, json.loads(text.replace(ROOT_TOKEN + '/', repo + '/')))
     db.extract_s = time.time() - t0
     db.repo = repo
     return db
